@@ -677,6 +677,9 @@ func (g *schemaGenerator) generateStructType(t *schemas.Type, scope nameScope) (
 	}
 
 	uniqueNames := make(map[string]int, len(t.Properties))
+	// The generated methods share the struct's name space with its fields.
+	uniqueNames["UnmarshalJSON"] = 1
+	uniqueNames["UnmarshalYAML"] = 1
 
 	var structType codegen.StructType
 
